@@ -42,7 +42,7 @@ class Contract(object):
                  cases=None, name=None, consts=None, dict_model=None, inline=False, pure=False, lemmas=(),
                  ghost=None, notes="", trusted=False, unfold=None, assume_post=(), raises_frame="havoc",
                  exc_ensures=None, self_class=None, kwargs=None, defaults=None, statics=None, max_paths=4000,
-                 old_names=None, qualkey=None, result_alias=None, on_abandon=(), upstream_raises=False, at_call=None):
+                 old_names=None, qualkey=None, result_alias=None, on_abandon=(), upstream_raises=False, at_call=None, closure=None):
         self.file, self.qual, self.props = file, qual, list(props)
         self.params = dict(params or {})
         self.result = result
@@ -73,6 +73,7 @@ class Contract(object):
         self.max_paths = max_paths
         self.old_names = old_names
         self.qualkey = qualkey
+        self.closure = dict(closure or {})       # free variables of a nested function: name -> type
         self.at_call = dict(at_call or {})       # element method name -> clauses checked at every call of it
         self.on_abandon = list(on_abandon)       # clauses that hold when the generator is abandoned at a yield
         self.upstream_raises = upstream_raises   # explore: pulling from the input flow raises
